@@ -257,6 +257,20 @@ def mutate_all(obj, depth=0):
             obj.append(obj.componentType.clone() if not isinstance(obj.componentType, pbase.SimpleAsn1Type) else obj.componentType.clone(0))
         except Exception:  # noqa
             pass
+        # "append by reading": the accessor creates the element one past the end; what it hands out is the caller's to fill
+        try:
+            fresh = obj.getComponentByPosition(len(obj))
+            if isinstance(fresh, (univ.SequenceOf, univ.SetOf)):
+                inner = fresh.componentType
+                fresh.append(inner.clone() if not isinstance(inner, pbase.SimpleAsn1Type) else inner.clone(0))
+                fresh.getComponentByPosition(len(fresh))
+            elif isinstance(fresh, (univ.Sequence, univ.Set)):
+                for i in range(len(fresh.componentType)):
+                    fresh.getComponentByPosition(i)
+            elif isinstance(fresh, univ.Choice):
+                fresh.getComponentByPosition(0)
+        except Exception:  # noqa
+            pass
         obj.clear()
 
 
